@@ -428,6 +428,14 @@ class ExecutionState:
             # Empty checkpoint (async for performance)
             execution_state.create_checkpoint(is_sync=False)
         """
+        # Conditionally create completion event based on is_sync parameter
+        completion_event: CompletionEvent | None = (
+            CompletionEvent() if is_sync else None
+        )
+
+        # Create wrapper object for queue
+        queued_op = QueuedOperation(operation_update, completion_event)
+
         # if this is CONTEXT complete, mark incomplete descendants as orphans so the children can't complete after the parent
         if operation_update is not None:
             # Use single lock to coordinate completion and checkpoint validation
@@ -471,26 +479,12 @@ class ExecutionState:
                         operation_id=operation_update.operation_id,
                     )
 
-        # Check if background checkpointing has failed
-        if self._checkpointing_failed.is_set():
-            # This will raise the stored BackgroundThreadError
-            self._checkpointing_failed.wait()
-
-        # Conditionally create completion event based on is_sync parameter
-        completion_event: CompletionEvent | None = (
-            CompletionEvent() if is_sync else None
-        )
-
-        # Create wrapper object for queue
-        queued_op = QueuedOperation(operation_update, completion_event)
-
-        # Enqueue the wrapper object (operation_update can be None for empty checkpoints)
-        self._checkpoint_queue.put(queued_op)
-
-        # The background thread may have failed between the check above and the put, in
-        # which case nobody will ever drain the queue: fail here instead of waiting forever.
-        if self._checkpointing_failed.is_set():
-            self._checkpointing_failed.wait()
+                # Enqueue while still holding the lock: otherwise a validated update could be
+                # enqueued after its parent's completion was validated and enqueued by another
+                # thread, and reach the backend behind it.
+                self._enqueue(queued_op)
+        else:
+            self._enqueue(queued_op)
 
         # Conditionally wait for completion based on is_sync parameter
         if is_sync:
@@ -504,6 +498,21 @@ class ExecutionState:
             completion_event.wait()
         else:
             logger.debug("Enqueued checkpoint operation for asynchronous processing")
+
+    def _enqueue(self, queued_op: QueuedOperation) -> None:
+        """Hand a queued operation to the background thread, or raise if checkpointing has failed."""
+        # Check if background checkpointing has failed
+        if self._checkpointing_failed.is_set():
+            # This will raise the stored BackgroundThreadError
+            self._checkpointing_failed.wait()
+
+        # Enqueue the wrapper object (operation_update can be None for empty checkpoints)
+        self._checkpoint_queue.put(queued_op)
+
+        # The background thread may have failed between the check above and the put, in
+        # which case nobody will ever drain the queue: fail here instead of waiting forever.
+        if self._checkpointing_failed.is_set():
+            self._checkpointing_failed.wait()
 
     def create_checkpoint_sync(
         self,
